@@ -16,6 +16,8 @@ iterates a Python `set`, reuses a module-level cache, or mutates an object durin
   dup_names      the same question name in several groups / repeats (legal while unreferenced), plus triggers,
                  dynamic defaults and a repeat: anything `xml()` records per *name* on the survey object is
                  ambiguous on the second `xml()`
+  last_saved     `${last-saved#q}` in defaults, calculations, labels and choice filters (the `__last-saved`
+                 instance element is created by a static method: anything shared between surveys shows there)
   type_sweep     one question of every type of the type table (all spellings), selects included
   param_sweep    every parameter family (range, text rows, image, audio/background-audio quality, geo accuracy,
                  select randomize/seed, select-from-file value/label, audit) with every subset of its parameters
@@ -38,7 +40,7 @@ LANG_POOL = ["en", "fr", "de", "sw", "English (en)", "French (fr)", "es", "pt"]
 FEATURES = [
     "sparse_itext", "pulldata", "or_other", "instance_label", "external", "external_nohdr", "search",
     "search_mixed", "dup_id", "entities", "missing_header", "dyn_default", "namespaces",
-    "dup_names", "type_sweep", "param_sweep", "plain",
+    "dup_names", "type_sweep", "param_sweep", "last_saved", "plain",
 ]
 
 
@@ -341,6 +343,26 @@ def add_type_sweep(rng, form, langs):
     form["survey"].insert(0, {"type": "text", "name": "ts_anchor", **_lab(langs, "Anchor")})
 
 
+def add_last_saved(rng, form, langs):
+    form["survey"].insert(0, {"type": "text", "name": "ls_src", **_lab(langs, "Source")})
+    form["survey"].insert(1, {"type": "integer", "name": "ls_num", **_lab(langs, "Number")})
+    for i in range(rng.randint(1, 4)):
+        src = rng.choice(["ls_src", "ls_num"])
+        kind = rng.choice(["default", "calculation", "label", "relevant", "constraint"])
+        row = {"type": "text", "name": f"ls{i}", **_lab(langs, f"LS{i}")}
+        if kind == "default":
+            row["default"] = f"${{last-saved#{src}}}"
+        elif kind == "calculation":
+            row = {"type": "calculate", "name": f"ls{i}", "calculation": f"concat(${{last-saved#{src}}}, 'x')"}
+        elif kind == "label":
+            row = {"type": "note", "name": f"ls{i}", **_lab(langs, f"Last time: ${{last-saved#{src}}}")}
+        elif kind == "relevant":
+            row["relevant"] = f"${{last-saved#{src}}} != ''"
+        else:
+            row["constraint"] = f". != ${{last-saved#{src}}}"
+        form["survey"].append(row)
+
+
 def add_dup_id(rng, form):
     st = (form.get("settings") or [{}])[0]
     st["id_string"] = rng.choice(["one", "my_form"])
@@ -414,6 +436,8 @@ def gen_c14_form(rng: random.Random, feature: str | None = None, big=False, nl: 
             add_dyn_default(rng, form, langs)
         elif f == "namespaces":
             add_namespaces(rng, form)
+        elif f == "last_saved":
+            add_last_saved(rng, form, langs)
         elif f == "param_sweep":
             add_param_sweep(rng, form, langs)
         elif f == "type_sweep":
